@@ -32,7 +32,7 @@ ASSUMPTIONS = [
     "64-bit blake2b digests: an accidental collision among <= 1e6 nodes has probability < 1e-7, so a collision with different reference pre-images is reported",
     "floats 0.0/-0.0/NaN, user objects with custom __str__ and same-named Enum classes are outside the generator (don't-care)",
 ]
-MUST_SEE = ["single_member_frozensets", "payload_legs", "failed_constructions", 
+MUST_SEE = ["values_equal_to_defaults_built_at_run_time", "single_member_frozensets", "payload_legs", "failed_constructions", 
     "equal_key_pairs", "near_miss_same_class", "cross_process_keys", "separator_strings", "falsy_children", "tuple_perm",
     "class_swap", "lifetime_rechecks", "rebuild_legs", "is_equal_true", "is_equal_false", "same_named_class_probe",
 ]
@@ -277,6 +277,15 @@ def run_shard(ctx):
         r = build(U, sp)
         keep.append(r)
         pool.add_tree(sp, r)
+    # values equal to the declared defaults but built at run time (other objects), next to nodes left at their defaults
+    from pathlib import Path as _Path
+
+    for kw in ({}, {"big": int("4096"), "name": "-".join(["function", "local"]), "dims": tuple(x for x in [4, 4]), "where": _Path("a") / "b"}, {"big": int("4096")}, {"name": "".join(["function-", "local"])}, {"dims": tuple([4, 4])}):
+        sp = S(f"{P}Defaults", dict(kw))
+        r = build(U, sp)
+        keep.append(r)
+        pool.add_tree(sp, r)
+        ctx.count("values_equal_to_defaults_built_at_run_time")
     # one-element frozensets (no iteration order to speak of) whose members / builtin hashes are look-alikes
     for val in (frozenset([-1]), frozenset([-2]), frozenset([0]), frozenset([2**61 - 1]), frozenset(["-1"]), frozenset([True]), frozenset([1]), frozenset([1.0]), frozenset()):
         sp = S(f"{P}Mix", {"fs": val})
